@@ -14,6 +14,7 @@ PROFILE = {
                 'partial_binary': 4, 'session': 2, 'hostile': 3},
     'connect_outcomes': {'accept': 5, 'false': 1, 'refuse': 2, 'raise': 2},
     'event_raise': 0.2, 'disconnect_raise': 0.25,
+    'no_sid_rooms': True,        # the model-free probe searches the object graph for the departed ids as strings
 }
 
 HOSTILE = ['', 'x', '9', '4"err"', '2', '2[]', '2{"a":1}', '3', '31', '51-["msg",{"_placeholder":true,"num":5}]',
